@@ -60,8 +60,11 @@ class Roles:
     def with_effect(self, actor, cell, kinds):
         """actor methods whose (substituted) effect summary has such an effect; returns [(body id, [effects])]"""
         out = []
+        methods = set(self.actor_methods(actor))
+        roots = {self.prog.facts.body(m).root or m for m in methods} | methods
         for bid in self.actor_methods(actor):
-            effs = [e for e in self.prog.effects(bid) if e.touches(cell) and e.kind in kinds and not e.spawned]
+            effs = [e for e in self.prog.effects(bid) if e.touches(cell) and e.kind in kinds and not e.spawned
+                    and not any(b in roots and b != bid for b, _ in e.chain)]
             if effs:
                 out.append((bid, effs))
         return out
@@ -147,10 +150,7 @@ class Roles:
                             if op.place is not None and cell in self.prog.receiver_origin(bi, op.place).cells():
                                 hit = True
             if hit:
-                true_bb = t.otherwise
-                for x in bi.cfg.reach:
-                    if bi.cfg.dominates(true_bb, x):
-                        out.add(x)
+                out |= bi.cfg.edge_dominated(blk.idx, t.otherwise)
         return out
 
     def call_result_arm_blocks(self, bi, pred, truth):
@@ -169,9 +169,7 @@ class Roles:
             arm = sw.otherwise if truth else arms.get(0)
             if arm is None:
                 continue
-            for x in bi.cfg.reach:
-                if bi.cfg.dominates(arm, x):
-                    out.add(x)
+            out |= bi.cfg.edge_dominated(t.target, arm)
         return out
 
     def backlog_empty_blocks(self, bi):
